@@ -82,6 +82,10 @@ class Control(BaseAPIClass):
             If `True` (`False`) the operator is applied at the corresponding
             time step *after* (*before*) a possible measurement of the state.
         """
+        # own copy (as in ChainControl.add_single_site_control): later
+        # in-place changes of the caller's array must not reach the control
+        control_operation = np.array(control_operation, dtype=NpDtype)
+
         if post:
             pre_post = 'post'
         else:
